@@ -5,7 +5,7 @@ from verif.core import Infra
 META = dict(
     technique="TLA+ reference (Neutralise, the message line carrying each setter slot, a structural RFC 9112 peer, derived Deliverable) meta-checked by TLC over every byte-class string <= N in every slot; the emitted vectors are concretised to bytes, applied through the real setters, serialised with Request.Write / Response.Write / the fasthttpproxy CONNECT dialer and parsed back by net/http and by fasthttp (B3)",
     design_ref="DESIGN.md §4 C05",
-    text="Byte classes {CR, LF, NUL, ':', SP, tchar, other VCHAR, >=0x80}; 53 slots (header names via Set/Add/SetBytesKV, header values via Set/Add/SetCanonical and the typed setters, status message, method, request URI, protocol, trailer announcement, proxy CONNECT target). TLC checks that neutralisation removes every line break and is idempotent, that a delivered input never adds a line, and that the derived deliverability (read-back by a structural peer) equals an explicit characterisation. For every vector the harness checks: the serialised head has the same number of CRLF-terminated lines as with a benign input and no bare CR/LF; any peer that accepts the message (net/http, fasthttp) sees exactly one message, the same body boundary, only header names that were set or are defaults, unchanged sentinel fields around the slot, and the neutralised input in the slot; where the API has an error return (trailers, proxy dial) an undeliverable input must be refused by the sender.",
+    text="Byte classes {CR, LF, NUL, ':', SP, tchar, other VCHAR, >=0x80}; 101 slots (header names via Set/Add/SetBytesKV, header values via Set/Add/SetCanonical and the typed setters, status message, method, request URI, protocol, trailer announcement, proxy CONNECT target). TLC checks that neutralisation removes every line break and is idempotent, that a delivered input never adds a line, and that the derived deliverability (read-back by a structural peer) equals an explicit characterisation. For every vector the harness checks: the serialised head has the same number of CRLF-terminated lines as with a benign input and no bare CR/LF; any peer that accepts the message (net/http, fasthttp) sees exactly one message, the same body boundary, only header names that were set or are defaults, unchanged sentinel fields around the slot, and the neutralised input in the slot; where the API has an error return (trailers, proxy dial) an undeliverable input must be refused by the sender.",
     note="Trusted: TLC, net/http's ReadRequest/ReadResponse, the class representatives chosen by the harness (3-5 bytes per class, seed-chosen per position). A message that every peer rejects counts as rejected; cookies are C06's subject.",
 )
 
@@ -25,7 +25,7 @@ def run(ctx):
     ctx.exhaustive = True
     ctx.rule = ("one evaluation = one (slot, class string) vector concretised to bytes and serialised; non-trivial = the input "
                 "contains CR, LF, NUL, ':' or SP")
-    ctx.assumptions = ["class strings of length 0..%d over 8 byte classes, 53 setter slots" % n,
+    ctx.assumptions = ["class strings of length 0..%d over 8 byte classes, 101 setter slots" % n,
                        "each class position is concretised to one seed-chosen representative byte",
                        "a message refused by every peer counts as rejected (no injection)",
                        "header-name normalizing enabled and disabled (header object, Server and Client option); routes: Write, HostClient, live Server"]
